@@ -540,6 +540,7 @@ pub proof fn lemma_index_tail(s: Seq<u8>, recs: Seq<RecS>, k0: nat, used: nat, p
     assert(seq![0u8] + s.take((body + pad.len()) as int) =~= bp);
 }
 
+#[verifier::rlimit(100)]
 pub proof fn lemma_xz_rt_index(unp: nat, upk: nat, rest: Seq<u8>)
     requires enc_mb(unp).len() <= 9, enc_mb(upk).len() <= 9,
     ensures ({
